@@ -2,7 +2,7 @@
 import fcntl, hashlib, json, os, random, re, shutil, subprocess, sys, time
 
 ROOT = "/verif"
-REPO = "/repo"
+REPO = os.environ.get("VERIF_REPO", "/repo")  # VERIF_REPO: development only (scratch worktrees); registered commands use /repo
 BUILD = os.path.join(ROOT, "build")
 COQ = os.path.join(ROOT, "coq")
 HGO = os.path.join(ROOT, "harness", "go")
